@@ -350,6 +350,7 @@ def run_docs(spec, res):
             res.inconclusive_case('document not valid for the lax schema', text[:300])
             continue
         jsonml_kind = {}
+        jsonml_kind_lx = {}
         for cname, (conv, walker, ordered) in convs.items():
             for mode in MODES:
                 for umap_name, umap in (('none', None), ('colliding', {'p': U[2], 'z': U[1]}), ('partial', {'': U[1]})):
@@ -404,6 +405,41 @@ def run_docs(spec, res):
                                       f'{cname}/{mode}/{umap_name} at {path}: {detail}')
                         continue
                     res.count('names:agree')
+                    if umap is None and cname in ('jsonml', 'default'):
+                        # the same document given as an lxml tree (namespace declarations are read from lxml's nsmap
+                        # instead of parser events): same data
+                        from lxml import etree as lxml_etree
+                        res.count('lxml_source:compared')
+                        try:
+                            data_lx = schema.decode(lxml_etree.fromstring(text.encode('utf-8')), **kwargs)
+                        except xmlschema.XMLSchemaException as e:
+                            res.violation(f'lxml-source:decode-raised:{type(e).__name__}', case, str(e)[:200])
+                        else:
+                            # (declarations that re-declare a binding already in scope are not visible in an lxml tree, so
+                            # the xmlns entries may differ: the names must resolve to the same nodes all the same)
+                            problems_lx = []
+                            try:
+                                gtree_lx = walker(data_lx, root_name)
+                                if cname == 'default':
+                                    gtree_lx['name'] = gtree['name']
+                                compare(src, gtree_lx, dict(scope0), ordered, (), problems_lx)
+                            except (TypeError, AttributeError, StopIteration, IndexError, KeyError) as e:
+                                problems_lx = [('unexpected-data-shape', (), repr(e))]
+                            if cname == 'jsonml':
+                                jsonml_kind_lx[mode] = problems_lx[0][0] if problems_lx else None
+                            elif problems_lx:
+                                # (dictionary data: attributed to what the ordered JsonML data of the lxml source shows)
+                                problems_lx = [(jsonml_kind_lx.get(mode) or 'dict-converter-only-mismatch', problems_lx[0][1],
+                                                f'({cname}) ' + problems_lx[0][2])]
+                            if problems_lx:
+                                # same mechanism names as for text sources: without the redundant re-declarations the listed
+                                # default-namespace findings show up on more nodes; anything else is new
+                                res.count('lxml_source:differs_from_text_source')
+                                res.violation(f'{problems_lx[0][0]}:{"stacked" if mode == "stacked" else "collapsed-or-root-only"}',
+                                              dict(case, source='lxml'),
+                                              f'{cname}/{mode} lxml source at {problems_lx[0][1]}: {problems_lx[0][2]} (the text source resolves correctly)')
+                            else:
+                                res.count('lxml_source:agree')
                     # round trip: encode restores the expanded names (JsonML keeps order and every name)
                     if cname == 'jsonml' and umap is None:
                         res.count('roundtrip:runs')
